@@ -47,6 +47,8 @@ RULE = ("tx_sign: 1-3 accounts (deterministic-chain with small gaps, or single-a
         "sha256(address||claim-without-signature||certificate id); v2 claim over sha256(first input||channel "
         "hash||message)) with high-S or low-S and DER SubjectPublicKeyInfo or compressed channel keys, in v1 "
         "certificate or v2 channel claims, plus 3 real main-net examples (enumerated), all with the same mutations. "
+        "After its mutations every legacy case (P2PKH ones) is parsed by the SDK, detached with clear_signature() and signed "
+        "by a fresh SDK-made channel: is_signed_by in memory, after a raw round trip, and the reference must all accept. "
         "distinct = distinct canonical JSON of the case.")
 ASSUMPTIONS = [
     "scriptCode for the reference digest is the complete script of the spent output (claim prefix included), taken "
